@@ -45,9 +45,13 @@ type c02Params struct {
 	Servers int
 	// Enc: the files are compressed ("gz", "zst"); NoNL: the last line of every file has no terminating newline;
 	// PaceMs: a uniformly slow consumer (that long before every read from the client's stdout pipe)
-	Enc    string
-	NoNL   bool
-	PaceMs int
+	Enc string
+	// Damaged: the last 8 bytes (check sum and length) of every gzip file are missing, as in a file that is still
+	// being written or was copied partially: the read fails AFTER the lines were handed on. Nothing can be
+	// demanded about completeness then, but what is delivered must still be each line at most once, in order.
+	Damaged bool
+	NoNL    bool
+	PaceMs  int
 }
 
 func (p c02Params) String() string {
@@ -60,6 +64,9 @@ func (p c02Params) String() string {
 	}
 	if p.Servers > 1 {
 		s += fmt.Sprintf(" servers=%d", p.Servers)
+	}
+	if p.Damaged {
+		s += " damaged-tail"
 	}
 	if p.Enc != "" {
 		s += " compressed=" + p.Enc
@@ -89,6 +96,9 @@ func c02Setup(p c02Params) (paths []string, dir string) {
 	if p.Enc != "" || p.NoNL {
 		dir += fmt.Sprintf("-%s-%v", p.Enc, p.NoNL)
 	}
+	if p.Damaged {
+		dir += "-damaged"
+	}
 	dir = strings.NewReplacer(" ", "_", "[", "", "]", "").Replace(dir)
 	for f, n := range p.Files {
 		content := strings.Join(c02FileLines(f, n), "\n") + map[bool]string{true: "\n", false: ""}[n > 0 && !p.NoNL]
@@ -100,6 +110,9 @@ func c02Setup(p c02Params) (paths []string, dir string) {
 			w.Write([]byte(content))
 			w.Close()
 			content, name = b.String(), name+".gz"
+			if p.Damaged {
+				content = content[:len(content)-8]
+			}
 		case "zst":
 			d, err := zstd.Compress(nil, []byte(content))
 			if err != nil {
@@ -240,7 +253,7 @@ func c02Body(p c02Params, paths []string, dir string) (string, string) {
 			continue
 		}
 		var f, n int
-		if p.Refused && (strings.HasPrefix(l, "SERVER|") || strings.HasPrefix(l, "CLIENT|")) {
+		if (p.Refused || p.Damaged) && (strings.HasPrefix(l, "SERVER|") || strings.HasPrefix(l, "CLIENT|")) {
 			continue // the error report about an entry that is not read (serverless: the server part logs to the same stdout)
 		}
 		if _, err := fmt.Sscanf(l, "f%dl%dM", &f, &n); err != nil {
@@ -255,9 +268,18 @@ func c02Body(p c02Params, paths []string, dir string) (string, string) {
 		if p.Kind == "grep" && p.Max > 0 && len(want) > p.Max {
 			want = want[:p.Max] // every line matches, so after-context adds nothing beyond the next match
 		}
+		if p.Damaged {
+			if len(got[f]) > len(want) || strings.Join(got[f], "\n") != strings.Join(want[:len(got[f])], "\n") {
+				missing = append(missing, fmt.Sprintf("file %d (damaged tail): %d lines delivered, not a prefix of its %d lines, each once: %v", f, len(got[f]), len(want), got[f]))
+			}
+			continue
+		}
 		if strings.Join(got[f], "\n") != strings.Join(want, "\n") {
 			missing = append(missing, fmt.Sprintf("file %d: got %d of %d lines %v", f, len(got[f]), len(want), got[f]))
 		}
+	}
+	if p.Damaged && len(missing) == 0 {
+		return fmt.Sprintf("status=%d out=%s", r.Status, strings.ReplaceAll(r.Stdout, "\n", ",")), ""
 	}
 	if len(missing) > 0 {
 		viol = "lines lost or duplicated: " + strings.Join(missing, "; ")
@@ -504,6 +526,10 @@ func c02ParamSets(tier string) (ps []c02Params, d int) {
 			{Kind: "cat", Files: []int{3000}, CatLimit: 2, Stall: 4 * time.Second, StallAt: 150, D: -1},
 			{Kind: "grep", Files: []int{1500, 700}, Glob: true, CatLimit: 1, Max: 1200, After: 2, Stall: 2 * time.Second, StallAt: 50, D: -1},
 			{Kind: "cat", Files: []int{1, 1, 1}, Glob: true, CatLimit: 1, D: 1},
+			// gzip files whose tail is missing: the read fails after the lines were handed on (at most once, in order)
+			{Kind: "cat", Files: []int{3}, CatLimit: 2, Enc: "gz", Damaged: true, D: 1},
+			{Kind: "grep", Files: []int{2, 3}, Glob: true, CatLimit: 1, Enc: "gz", Damaged: true, D: 1},
+			{Kind: "cat", Files: []int{900}, CatLimit: 2, Enc: "gz", Damaged: true, D: -1},
 			// compressed files and files whose last line is unterminated, read slowly enough (slow disk / uniformly slow
 			// consumer holding the reader back behind its full queues) that the end of the file is reached while the
 			// reader's periodic (3 s) checks are due
